@@ -12,22 +12,22 @@ import (
 
 // Msg is one application message with a unique payload token.
 type Msg struct {
-	ID      string   `json:"id"`
-	Topic   string   `json:"topic"`
-	QoS     byte     `json:"qos"`
-	Retain  bool     `json:"retain"`
-	Empty   bool     `json:"empty,omitempty"`
-	Props   rc.Props `json:"props,omitempty"`
-	From    string   `json:"from"`
-	Step    int      `json:"step"`
-	IsWill  bool     `json:"is_will,omitempty"`
-	Inline  bool     `json:"inline,omitempty"`
-	ExpAt   int64    `json:"exp_at,omitempty"` // virtual time after which it must not be first-delivered (0 = never)
-	ExpIvl  uint32   `json:"exp_ivl,omitempty"`
-	PubAt   int64    `json:"pub_at,omitempty"`
-	WillWhy string   `json:"will_why,omitempty"`        // why the model published this will
-	WillErasedRisk bool `json:"will_erased_risk,omitempty"` // a delayed will of an earlier connection with this id fired while this will's connection was live
-	Payload []byte   `json:"-"`
+	ID             string   `json:"id"`
+	Topic          string   `json:"topic"`
+	QoS            byte     `json:"qos"`
+	Retain         bool     `json:"retain"`
+	Empty          bool     `json:"empty,omitempty"`
+	Props          rc.Props `json:"props,omitempty"`
+	From           string   `json:"from"`
+	Step           int      `json:"step"`
+	IsWill         bool     `json:"is_will,omitempty"`
+	Inline         bool     `json:"inline,omitempty"`
+	ExpAt          int64    `json:"exp_at,omitempty"` // virtual time after which it must not be first-delivered (0 = never)
+	ExpIvl         uint32   `json:"exp_ivl,omitempty"`
+	PubAt          int64    `json:"pub_at,omitempty"`
+	WillWhy        string   `json:"will_why,omitempty"`         // why the model published this will
+	WillErasedRisk bool     `json:"will_erased_risk,omitempty"` // a delayed will of an earlier connection with this id fired while this will's connection was live
+	Payload        []byte   `json:"-"`
 }
 
 type MSub struct {
@@ -47,15 +47,15 @@ type variant struct {
 
 // OutMsg is a QoS>0 message owed to a session until acknowledged.
 type OutMsg struct {
-	M        *Msg
-	Vars     []variant // acceptable renderings; once sent, Vars is narrowed to the observed one
-	Retain   []bool    // acceptable retain flags
-	PID      uint16
-	Sent     bool // first transmission observed
-	Pubrec   bool // PUBREC received from the client (QoS 2)
-	Deferred bool // queued behind Receive Maximum by the model's reckoning
-	Offline  bool // queued while the session had no connection
-	Retained bool // delivery of a retained message on subscribe
+	M           *Msg
+	Vars        []variant // acceptable renderings; once sent, Vars is narrowed to the observed one
+	Retain      []bool    // acceptable retain flags
+	PID         uint16
+	Sent        bool // first transmission observed
+	Pubrec      bool // PUBREC received from the client (QoS 2)
+	Deferred    bool // queued behind Receive Maximum by the model's reckoning
+	Offline     bool // queued while the session had no connection
+	Retained    bool // delivery of a retained message on subscribe
 	WasDeferred bool // was at some point held back by Receive Maximum
 }
 
@@ -103,46 +103,46 @@ type Expect struct {
 }
 
 type groupExp struct {
-	Key      string
-	Msg      *Msg
-	Free     []*Slot
-	Busy     int
-	Got      int
-	AmbGot   int
-	Observ   bool // all members connected: "exactly one" is observable
+	Key    string
+	Msg    *Msg
+	Free   []*Slot
+	Busy   int
+	Got    int
+	AmbGot int
+	Observ bool // all members connected: "exactly one" is observable
 }
 
 type Slot struct {
-	resumePIDs map[uint16]bool // outbound ids (re)sent as part of the burst that follows a CONNACK with session present
-	Idx      int
-	ClientID string
-	Conn     *eng.Client
-	Ver      byte
-	Sess     *Session
-	Exp      []*Expect
-	Hold     bool
-	nextPID  uint16
-	RecvMax  uint16
-	TAM      uint16
-	MPS      uint32
-	RPI0     bool
-	aliasOut map[uint16]string
-	aliasIn  map[uint16]string
-	inflight map[uint16]*OutMsg // broker-outbound ids in transit on this connection (PUBACK/PUBCOMP pending)
-	ownQ2    map[uint16]bool    // own QoS 2 publishes awaiting PUBREC/PUBCOMP
-	otherQ2  map[uint16]bool    // untracked QoS 2 deliveries (empty payload, $SYS) we answered with PUBREC
-	ExpectClose bool
-	CloseRule   string
-	sendQ    [][]byte
-	connected bool
-	rxCount  int
-	sawConnack bool
+	resumePIDs   map[uint16]bool // outbound ids (re)sent as part of the burst that follows a CONNACK with session present
+	Idx          int
+	ClientID     string
+	Conn         *eng.Client
+	Ver          byte
+	Sess         *Session
+	Exp          []*Expect
+	Hold         bool
+	nextPID      uint16
+	RecvMax      uint16
+	TAM          uint16
+	MPS          uint32
+	RPI0         bool
+	aliasOut     map[uint16]string
+	aliasIn      map[uint16]string
+	inflight     map[uint16]*OutMsg // broker-outbound ids in transit on this connection (PUBACK/PUBCOMP pending)
+	ownQ2        map[uint16]bool    // own QoS 2 publishes awaiting PUBREC/PUBCOMP
+	otherQ2      map[uint16]bool    // untracked QoS 2 deliveries (empty payload, $SYS) we answered with PUBREC
+	ExpectClose  bool
+	CloseRule    string
+	sendQ        [][]byte
+	connected    bool
+	rxCount      int
+	sawConnack   bool
 	lastDiscSeen bool
-	heldAcks []*rc.Packet
-	faulted  bool // a write fault was injected on the current connection
-	stalled  bool // the connection currently refuses the broker's writes (backpressure)
-	maxOutPID uint16  // highest broker-assigned packet id seen on this connection
-	heldQ2   []uint16 // own QoS 2 publishes (runtime-chosen ids) whose PUBREL is withheld
+	heldAcks     []*rc.Packet
+	faulted      bool     // a write fault was injected on the current connection
+	stalled      bool     // the connection currently refuses the broker's writes (backpressure)
+	maxOutPID    uint16   // highest broker-assigned packet id seen on this connection
+	heldQ2       []uint16 // own QoS 2 publishes (runtime-chosen ids) whose PUBREL is withheld
 }
 
 type retainedEntry struct {
@@ -151,18 +151,18 @@ type retainedEntry struct {
 
 // Model is the executable reference of broker state.
 type Model struct {
-	Cfg      *Config
-	Sessions map[string]*Session
-	Retained map[string]*Msg
-	Msgs     map[string]*Msg
-	Now      int64 // virtual seconds since start
-	Step     int
-	Findings []Finding
-	Counts   map[string]int64
-	groups   []*groupExp
+	Cfg          *Config
+	Sessions     map[string]*Session
+	Retained     map[string]*Msg
+	Msgs         map[string]*Msg
+	Now          int64 // virtual seconds since start
+	Step         int
+	Findings     []Finding
+	Counts       map[string]int64
+	groups       []*groupExp
 	dropsAllowed int
-	x        *modelExt
-	WillDisp map[string]string // will payload -> what the model decided (published, refused, cancelled_by_resume, ...)
+	x            *modelExt
+	WillDisp     map[string]string // will payload -> what the model decided (published, refused, cancelled_by_resume, ...)
 }
 
 func NewModel(cfg *Config) *Model {
